@@ -11,3 +11,21 @@ Print Assumptions C15_after_refresh_like_fresh.
 Theorem C15_any_sequence : forall all d ops, fst (run_ops (start all d) ops) = spec_ops d ops.
 Proof. exact C15_general. Qed.
 Print Assumptions C15_any_sequence.
+
+(* ---- loader level (Loader2.v): /updateCache?names=all from ANY server state leaves exactly the memory a restart on the
+   files now on disk builds (when no loader reports a fatal read error, which is the case for every pair of datasets of the
+   property's domain), with the same data status and nothing dangling; likewise schedules alone and scenarios+schedules ---- *)
+From TrV Require Import Loader2 Proofs.Loader2Proofs.
+Theorem C15_refresh_all_is_restart : forall f s, snd (load_steps f) = false ->
+  sv_mem (update f [CAll] s) = fst (load_all f) /\ status_of (update f [CAll] s) = snd (load_all f).
+Proof. exact update_all_is_restart. Qed.
+Print Assumptions C15_refresh_all_is_restart.
+
+Theorem C15_refresh_all_nothing_dangling : forall f s, sv_dangling (update f [CAll] s) = [].
+Proof. exact update_all_no_dangling. Qed.
+Print Assumptions C15_refresh_all_nothing_dangling.
+
+Theorem C15_refresh_schedules_is_reload : forall f0 g s, sv_mem s = full_mem f0 -> sv_dangling s = [] ->
+  update (with_lines f0 g) [CName KSchedules] s = {| sv_mem := full_mem (with_lines f0 g); sv_dangling := [] |}.
+Proof. exact update_schedules_is_reload. Qed.
+Print Assumptions C15_refresh_schedules_is_reload.
